@@ -75,8 +75,29 @@ func damageRichPlan(t *rapid.T, op *Op) string {
 		_ = json.Unmarshal(b, &m)
 		return m
 	}
-	k := uni(t, 22, "plan.damage")
+	k := uni(t, 24, "plan.damage")
 	switch k {
+	case 22, 23:
+		// an after entry that differs from a title only by surrounding white space or by
+		// case names no task of the document
+		if n >= 2 {
+			i := 1 + uni(t, n-1, "near.i")
+			j := uni(t, i, "near.j")
+			ref := *d.Tasks[j].Title
+			near := oneOf(t, []string{ref + " ", " " + ref, ref + "\t", strings.ToUpper(ref), ref + "\u00a0"}, "near.how")
+			if near != ref {
+				taken := false
+				for _, x := range d.Tasks {
+					taken = taken || (x.Title != nil && *x.Title == near)
+				}
+				if !taken {
+					d.Tasks[i].After = append(d.Tasks[i].After, near)
+					return "after entry that is only nearly a title"
+				}
+			}
+		}
+		d.Tasks[0].After = append(d.Tasks[0].After, "no such task at all")
+		return "dangling after"
 	case 0:
 		if n >= 2 {
 			i := uni(t, n-1, "dup.i")
